@@ -61,14 +61,14 @@ Definition holds5 (c : c05_case) : bool :=
    unlink fails after the link succeeded the caller gets the OSError although the destination already holds
    the new content.  Guard: the observed calls contain a successful link immediately followed by a failed
    unlink of its source. *)
-Fixpoint link_then_unlink_failed (t : list (ev * option nat)) : bool :=
+Fixpoint link_then_unlink_failed (t : list (ev * option nat)) : bool :=     (* [t]: most recent call first *)
   match t with
-  | (ELink s d, None) :: (((EUnlink n, Some _) :: _) as r) => Nat.eqb s n || link_then_unlink_failed r
+  | (EUnlink n, Some _) :: (((ELink s d, None) :: _) as r) => Nat.eqb s n || link_then_unlink_failed r
   | _ :: r => link_then_unlink_failed r
   | [] => false
   end.
 
-Definition known5 (c : c05_case) : bool := link_then_unlink_failed (r_trace (k_run (k5_base c))).
+Definition known5 (c : c05_case) : bool := link_then_unlink_failed (rev (r_trace (k_run (k5_base c)))).
 
 Definition c05_verdict (c : c05_case) : verdict := (agree5 c, holds5 c, known5 c).
 
